@@ -270,8 +270,8 @@ class Reads:
 def translate() -> tuple[str, dict]:
     vtree = ast.parse(src_text('vmf.py'))
     ktree = ast.parse(src_text('keyvalues.py'))
-    vclasses = {n: ClassInfo(_find_class(vtree, n)) for n in VMF_CLASSES}
-    kv_info = ClassInfo(_find_class(ktree, 'Keyvalues'), want_feeds=False)
+    vclasses = {n: ClassInfo(_find_class(vtree, n), module=vtree) for n in VMF_CLASSES}
+    kv_info = ClassInfo(_find_class(ktree, 'Keyvalues'), want_feeds=False, module=ktree)
     kv_info.ann.update({'_folded_name': 'Optional[str]', '_real_name': 'Optional[str]', 'line_num': 'Optional[int]'})
     rv = Reads(vtree, vclasses)
     rk = Reads(ktree, {'Keyvalues': kv_info})
